@@ -20,6 +20,12 @@ Proof.
     rewrite testbit_1_succ by lia. apply orb_false_r.
 Qed.
 
+(* Everything below holds for ANY translated program that binds these names to these function terms: the
+   compactindexsized package, and the deprecated packages wherever their source is textually the same function. *)
+Section Generic.
+Variable prog : program.
+Hypothesis prog_searchEytzinger : plookup "searchEytzinger" prog = Some fn_searchEytzinger.
+
 Section Search.
   Variable get : nat -> option entry.           (* CI.entry = (hash, value bytes); None = the read failed *)
   Definition entry_val (e : entry) : val := VStruct [("Hash", VInt (Z.of_N (fst e))); ("Value", VInts (zs (snd e)))].
@@ -138,3 +144,4 @@ Section Search.
     - rewrite H. reflexivity.
   Qed.
 End Search.
+End Generic.
